@@ -530,7 +530,8 @@ def _maybe_iterate_axes(
     independent_axes = _identify_cross_product_axes(pipeline)
     axes = pipeline.mapspec_axes
     shapes = map_shapes(pipeline, inputs, internal_shapes).shapes
-    for _fixed_indices in _iterate_axes(independent_axes, inputs, axes, shapes):
+    inputs_with_defaults = pipeline.defaults | inputs  # mapped inputs may come from defaults
+    for _fixed_indices in _iterate_axes(independent_axes, inputs_with_defaults, axes, shapes):
         _validate_fixed_indices(_fixed_indices, inputs, pipeline)
         yield _fixed_indices
 
